@@ -101,6 +101,7 @@ def _work(args) -> dict:
         try:
             T = sub.root_type(root)
         except Exception:
+            res["kinds"]["not-judged:root-type-unavailable"] += 1
             continue
         open_ = m.enum_open(ename, True)
         declared = [v["value"] for v in e["values"]]
